@@ -129,7 +129,7 @@ def _exec(task):
     return CE.run_history(task)
 
 
-def gen_tasks(count, seed, *, nmin=3, nmax=8, length=6, norm=None, p_fault=0.35, p_dry=0.12, p_render=0.08, maxW=4, small_frac=0.25):
+def gen_tasks(count, seed, *, nmin=3, nmax=8, length=6, norm=None, p_fault=0.35, p_dry=0.12, p_render=0.08, maxW=4, small_frac=0.25, file_frac=0.12):
     rng = random.Random(f"caching-{seed}")
     small = None
     tasks = []
@@ -148,6 +148,13 @@ def gen_tasks(count, seed, *, nmin=3, nmax=8, length=6, norm=None, p_fault=0.35,
             scn = CS.random_scenario(rng, nmin, nmax, norm=norm)
         steps = CE.gen_history(rng, scn, rng.randint(2, length), p_fault=p_fault, p_dry=p_dry, p_render=p_render, maxW=maxW)
         tasks.append({"scn": scn, "steps": steps, "seed": rng.randrange(1 << 30)})
+        trng = random.Random(f"tz-{seed}-{i}")
+        if trng.random() < 0.5:
+            # the same history with its instants written in mixed representations in some process time zone
+            tasks[-1]["tzmix"] = CE.gen_tzmix(trng, scn["N"])
+        if trng.random() < file_frac:
+            # ... and with the library's own file stores behind (most of) the value stores: real files, real instants
+            tasks[-1]["files"] = CE.gen_files(trng, scn)
     return tasks
 
 
